@@ -6,7 +6,8 @@ and of its peers' schema versions (incl. rows of hosts the driver does not know 
 versions); each snapshot also fixes what the driver believes about every host (up / down /
 unknown).  The wait is entered three ways: ControlConnection.wait_for_schema_agreement called
 from the application thread, and a DDL request (RESULT schema_change) through a session with
-schema metadata enabled / disabled.  Every poll the driver makes is recorded at the node with
+schema metadata enabled / disabled - also with the agreement poll cut short at a chosen poll by
+error answers, by a reset of the connection carrying the poll, or by the client request timeout.  Every poll the driver makes is recorded at the node with
 its virtual time and exactly the rows it was served; the verdict is recomputed from those polls.
 """
 import random
@@ -18,7 +19,8 @@ TECHNIQUE = "runtime monitor in a deterministic world: scripted time-dependent s
 LEVEL_TEXT = ("Thousands (quick) to tens of thousands (thorough) of seeded episodes (1-4 snapshots of local/peer versions and host states, wait "
               "budgets 0.3-2 s against agreement arriving before / after the budget): reported verdict == some poll served a single version among the "
               "queried node and the known peers not marked down; on disagreement polling goes on (gaps <= one poll interval) until the budget "
-              "has elapsed and not beyond; ResponseFuture.is_schema_agreed of a DDL request equals that verdict. Held-on-observed episodes.")
+              "has elapsed and not beyond; ResponseFuture.is_schema_agreed of a DDL request equals that verdict, and when the poll is cut short (error answers / connection reset at "
+              "poll 0-3, client timeout 0.25-0.85 s) the result never records agreement unless a poll served until then showed one. Held-on-observed episodes.")
 LEVEL_NOTE = ("Trusted base: sim/world.py (virtual clock; ControlConnection._time is the world clock), sim/node.py, spec/frames.py. What the driver "
               "believes about a host is set through the documented Host.is_up attribute (True / False / None) when a snapshot becomes active. "
               "A DDL request polls the coordinator that answered it, so 'control node' in the statement is read as 'the node being polled'.")
@@ -113,6 +115,16 @@ def run_history(seed):
             return None
         idx, snap = snapshot_now()
         apply_states(snap)
+        fault = ep.get('fault')
+        if fault and ep['fault_state'] == 0 and is_peers and len(ep['polls']) == ep['fault_at']:
+            # the poll is cut short here: error answers to both poll queries, or the connection carrying the poll is reset
+            ep['fault_state'] = 1
+            ep['fault_node'] = node.address
+            ep['fault_conn'] = cstate.conn.sim_id
+            return node.error(cstate, req, 'server', 'scripted failure of the schema poll') if fault == 'error' else ('reset',)
+        if fault and ep['fault_state'] == 1 and is_local and cstate.conn.sim_id == ep['fault_conn']:
+            ep['fault_state'] = 2
+            return node.error(cstate, req, 'server', 'scripted failure of the schema poll') if fault == 'error' else ('silence',)
         if is_peers:
             rows, served = [], []
             for a in addrs:
@@ -175,7 +187,9 @@ def run_history(seed):
     viol = []
     stats = {'episodes': 0, 'polls': 0, 'verdict_true': 0, 'verdict_false': 0, 'ddl_on': 0, 'ddl_off': 0, 'direct': 0, 'torn': 0,
              'polls_with_down_peer_differing': 0, 'polls_with_unknown_peer_differing': 0, 'polls_with_stranger_differing': 0,
-             'polls_without_any_version': 0, 'agreement_after_budget': 0, 'agreement_on_later_poll': 0}
+             'polls_without_any_version': 0, 'agreement_after_budget': 0, 'agreement_on_later_poll': 0,
+             'ddl_fault': 0, 'ddl_timeout': 0, 'faults_fired': 0, 'faults_fired_reset': 0, 'timeouts_fired_while_polling': 0,
+             'cut_short_without_any_agreeing_poll': 0}
     ep_log = []
     with env:
         cluster = env.cluster(protocol_version=proto)
@@ -188,17 +202,28 @@ def run_history(seed):
                 raise RuntimeError("discovered hosts %r, expected %r" % (sorted(hosts_by_addr), sorted(known)))
         neps = rng.randint(3, 6)
         for e in range(neps):
-            mode = rng.choice(['direct', 'direct-default', 'ddl-on', 'ddl-off'])
+            mode = rng.choice(['direct', 'direct-default', 'ddl-on', 'ddl-off', 'ddl-timeout'])
+            if e == neps - 1 and rng.random() < 0.6:
+                # either fault defuncts the pool connection that carried the poll (host marked down, reconnection ...): only as the last episode
+                mode = rng.choice(['ddl-fault-error', 'ddl-fault-reset'])
+            cut_short = mode in ('ddl-fault-error', 'ddl-fault-reset', 'ddl-timeout')
             budget = rng.choice([0.3, 0.5, 0.7, 1.0, 1.1, 1.5, 2.0])
+            req_timeout = 60.0
+            if mode == 'ddl-timeout':
+                req_timeout = rng.choice([0.25, 0.45, 0.65, 0.85])
+                budget = max(budget, req_timeout + 0.25)
             nsnaps = rng.randint(1, 4)
             offsets = [0.0] + sorted(rng.sample([0.1 + POLL * j for j in range(12)], nsnaps - 1))
-            final_agrees = rng.random() < 0.6
+            final_agrees = rng.random() < (0.15 if cut_short else 0.6)
             schedule = []
             for i, o in enumerate(offsets):
                 last = i == nsnaps - 1
-                schedule.append((o, make_snapshot(final_agrees if last else (rng.random() < 0.12))))
+                schedule.append((o, make_snapshot(final_agrees if last else (rng.random() < (0.03 if cut_short else 0.12)))))
             ep.clear()
-            ep.update({'active': True, 't0': env.world.now, 'schedule': schedule, 'polls': [], 'torn': False})
+            ep.update({'active': True, 't0': env.world.now, 'schedule': schedule, 'polls': [], 'torn': False, 'fault': None, 'fault_state': 0})
+            if mode.startswith('ddl-fault'):
+                ep['fault'] = 'error' if mode == 'ddl-fault-error' else 'reset'
+                ep['fault_at'] = rng.choice([0, 1, 1, 2, 3])
             apply_states(schedule[0][1])
             done = {}
             if mode.startswith('direct'):
@@ -209,14 +234,19 @@ def run_history(seed):
                     verdict = cluster.control_connection.wait_for_schema_agreement()
                 t_ret = env.world.now
             else:
-                cluster.schema_metadata_enabled = (mode == 'ddl-on')
+                cluster.schema_metadata_enabled = (mode == 'ddl-on') or (cut_short and rng.random() < 0.5)
                 cluster.max_schema_agreement_wait = budget
                 uid = seed % 100000 * 10 + e
                 f = session.execute_async("CREATE KEYSPACE /*uid=%d*/ ks%d WITH replication = {'class': 'SimpleStrategy', 'replication_factor': 1}" % (uid, uid),
-                                          timeout=60.0)
-                f.add_callbacks(lambda r: done.setdefault('t', env.world.now), lambda x: done.setdefault('err', x))
+                                          timeout=req_timeout)
+
+                def completed(kind, value, f=f, done=done):
+                    # first completion of the request: what the result records at that moment, and how many polls had been served by then
+                    if 't' not in done:
+                        done.update(t=env.world.now, kind=kind, flag=f.is_schema_agreed, npolls=len(ep['polls']), value=value)
+                f.add_callbacks(lambda r: completed('result', r), lambda x: completed('error', x))
                 env.world.settle(until=env.world.now + 30.0)
-                if 'err' in done or 't' not in done:
+                if 't' not in done or (done['kind'] == 'error' and mode != 'ddl-timeout'):
                     raise RuntimeError("DDL request did not complete: %r" % (done,))
                 verdict = f.is_schema_agreed
                 t_ret = done['t']
@@ -225,8 +255,45 @@ def run_history(seed):
                 h.is_up = True
             env.world.settle(until=env.world.now + 1.0)
             stats['episodes'] += 1
-            stats[{'direct': 'direct', 'direct-default': 'direct', 'ddl-on': 'ddl_on', 'ddl-off': 'ddl_off'}[mode]] += 1
+            stats[{'direct': 'direct', 'direct-default': 'direct', 'ddl-on': 'ddl_on', 'ddl-off': 'ddl_off', 'ddl-fault-error': 'ddl_fault',
+                   'ddl-fault-reset': 'ddl_fault', 'ddl-timeout': 'ddl_timeout'}[mode]] += 1
             polls = ep['polls']
+            if cut_short:
+                # a schema-changing request whose agreement poll is cut short by a fault or by the client timeout: its result must not
+                # record agreement unless some poll served so far showed a single version among the live nodes
+                if ep['torn']:
+                    stats['torn'] += 1
+                    continue
+                t0 = ep['t0']
+                complete = [p for p in polls if p['local'] != 'pending']
+                stats['polls'] += len(complete)
+                agreed_at = [(p['t'], len(poll_versions(p, known)) == 1) for p in complete]
+                before = [ag for (t, ag) in agreed_at[:done['npolls']]]
+                fired = ep['fault_state'] > 0 if ep['fault'] else (done['kind'] == 'error')
+                if ep['fault'] and fired:
+                    stats['faults_fired'] += 1
+                    if ep['fault'] == 'reset':
+                        stats['faults_fired_reset'] += 1
+                if mode == 'ddl-timeout' and fired:
+                    stats['timeouts_fired_while_polling'] += 1
+                if fired and not any(before):
+                    stats['cut_short_without_any_agreeing_poll'] += 1
+                wit = {'seed': seed, 'episode': e, 'mode': mode, 'budget': budget, 'request_timeout': req_timeout, 'proto': proto, 'peers_v2': v2,
+                       'known_hosts': sorted(known), 'fault_at_poll': ep.get('fault_at'), 'fault_fired': fired, 'completed_as': done['kind'],
+                       'completed_after': round(done['t'] - t0, 6), 'completion_value': repr(done['value'])[:300],
+                       'is_schema_agreed_at_completion': done['flag'], 'is_schema_agreed_finally': verdict, 'polls_served_before_completion': done['npolls'],
+                       'polls': [{'at': round(p['t'] - t0, 6), 'node': p['node'], 'local': str(p['local']), 'rows': [(a, str(v)) for a, v in p['rows']],
+                                  'states': p['states'], 'single_version': ag} for p, (t, ag) in zip(complete, agreed_at)][-12:]}
+                if done['flag'] and not any(before):
+                    viol.append(('ddl-result-records-agreement-although-poll-was-cut-short-%s' % ('by-client-timeout' if mode == 'ddl-timeout' else 'by-fault'),
+                                 'the request completed (%s) after %.2fs with is_schema_agreed True; none of the %d polls served until then showed a single version' % (
+                                     done['kind'], done['t'] - t0, done['npolls']), wit))
+                elif verdict and not any(ag for (t, ag) in agreed_at):
+                    viol.append(('ddl-result-records-agreement-without-any-agreeing-poll', 'is_schema_agreed ended up True, no poll ever showed a single version', wit))
+                ep_log.append((mode, budget, req_timeout, ep.get('fault_at'), fired, done['kind'], done['flag'], verdict,
+                               tuple((round(p['t'] - t0, 3), p['node'], str(p['local']), tuple((a, str(v), p['states'].get(a)) for a, v in p['rows']))
+                                     for p in complete)))
+                continue
             if ep['torn'] or any(p['local'] == 'pending' for p in polls) or not polls:
                 stats['torn'] += 1
                 continue
@@ -346,7 +413,11 @@ def run(ctx):
                      ("polls_where_an_unknown_state_peer_decides", 'polls_with_unknown_peer_differing'),
                      ("polls_where_a_host_not_in_metadata_differs", 'polls_with_stranger_differing'),
                      ("polls_without_any_counting_version", 'polls_without_any_version'),
-                     ("episodes_agreement_only_after_budget", 'agreement_after_budget'), ("episodes_agreement_on_a_later_poll", 'agreement_on_later_poll')):
+                     ("episodes_agreement_only_after_budget", 'agreement_after_budget'), ("episodes_agreement_on_a_later_poll", 'agreement_on_later_poll'),
+                     ("episodes_ddl_with_poll_fault", 'ddl_fault'), ("episodes_ddl_with_client_timeout", 'ddl_timeout'),
+                     ("poll_faults_fired", 'faults_fired'), ("poll_faults_fired_connection_reset", 'faults_fired_reset'),
+                     ("client_timeouts_fired_while_polling", 'timeouts_fired_while_polling'),
+                     ("ddl_cut_short_without_any_agreeing_poll", 'cut_short_without_any_agreeing_poll')):
             ctx.count(k, stats[v])
         seen = set()
         for mech, what, wit in viol:
@@ -362,4 +433,6 @@ def run(ctx):
                           "episodes_direct_call": 150, "episodes_ddl_schema_metadata_on": 80, "episodes_ddl_schema_metadata_off": 80,
                           "polls_where_a_down_peer_differs": 100, "polls_where_an_unknown_state_peer_decides": 100,
                           "polls_where_a_host_not_in_metadata_differs": 50, "polls_without_any_counting_version": 20,
-                          "episodes_agreement_only_after_budget": 30, "episodes_agreement_on_a_later_poll": 50}
+                          "episodes_agreement_only_after_budget": 30, "episodes_agreement_on_a_later_poll": 50,
+                          "poll_faults_fired": 60, "poll_faults_fired_connection_reset": 10, "client_timeouts_fired_while_polling": 60,
+                          "ddl_cut_short_without_any_agreeing_poll": 100}
